@@ -153,7 +153,8 @@ LawFails(j, P) ==
         Bind(b, name) == IF b THEN {} ELSE {<<"MACHINERY", name>>}
         Law(b, prop, name) == IF b THEN {} ELSE {<<prop, name>>}
     IN
-    IF ~ok THEN {}
+    IF ~ok THEN (IF j.law = "same" /\ S(1).out # S(2).out /\ c(1) = c(2)       \* one call fails, its twin does not
+                 THEN {<<"C15", "two-scans-of-the-same-tree-differ">>} ELSE {})
     ELSE CASE j.law = "same" ->       \* the same call again: other process order, hash seed, directory enumeration order
               Bind(c(1) = c(2), "same-binding") \cup Law(o(1) = o(2), "C15", "two-scans-of-the-same-tree-differ")
       [] j.law = "entry" ->          \* module-object entry point vs. path entry point
